@@ -69,7 +69,27 @@ def probe(kind, comp):
     return pr, sv
 
 
+def check_seq(case):
+    """ordered pair of kinds loaded in a fresh interpreter (class- / module-level loader state starts from scratch)."""
+    import subprocess, sys, json as _json
+    res = Res()
+    env = dict(os.environ, SYSLOSS_REPO=__import__("mc.common", fromlist=["REPO"]).REPO)
+    pr = subprocess.run([sys.executable, "-m", "mc.props.c13_seq", case["k1"], case["k2"], workdir()], cwd=VERIF, env=env, capture_output=True, text=True, timeout=600)
+    res.stats["evaluations"] += 1
+    line = [l for l in pr.stdout.splitlines() if l.startswith("C13SEQ")]
+    if pr.returncode != 0 or not line:
+        res.v(("HARNESS", "c13_seq"), (pr.stderr or pr.stdout)[-400:])
+        return res
+    for sig, det in _json.loads(line[0][6:]):
+        res.v(tuple(sig), det)
+    res.nontrivial = 1
+    res.classes.add("sequence")
+    return res
+
+
 def check_case(case):
+    if case.get("fam") == "seq":
+        return check_seq(case)
     res = Res()
     kind = case["kind"]
     section, mand, opt = SCHEMA[kind]
@@ -170,6 +190,14 @@ def gen_cases(tier):
                         P = dict(base)
                         P[k] = val
                         yield dict(fam="wrongtype", kind=kind, P=P, L=None, key=k, wt=wt)
+    yield from gen_seq(tier)
+
+
+def gen_seq(tier):
+    kinds = list(SCHEMA)
+    for k1 in kinds:
+        for k2 in kinds:
+            yield dict(fam="seq", k1=k1, k2=k2, kind=k2, P={}, L=None)
 
 
 def replay(doc):
@@ -185,11 +213,11 @@ def main(tier):
         run.map(check_case, gen_cases(tier), chunk=8, family="toml")
     finally:
         _cw()
-    for c in ("equiv", "KeyError", "ValueError"):
+    for c in ("equiv", "KeyError", "ValueError", "sequence"):
         run.require(c in run.classes, "class %s never observed" % c)
     return run.finish(
         rule="E4: for each of the 11 kinds: every subset of the optional keys (with / without a [limits] table); every alternative value form of every key (TOML integer, negative, "
              "list, 1-D and 2-D table where the kind allows it) alone and with all optional keys present (thorough: all pairs of alternative forms); each mandatory key removed; each key given "
-             "each wrong TOML type (string, boolean, array, table, integer-for-boolean) that the type table excludes. Differential oracle: params(limits=True) rows and the solve() table of a "
+             "each wrong TOML type (string, boolean, array, table, integer-for-boolean) that the type table excludes; plus all 121 ORDERED PAIRS of kinds, each in a fresh interpreter: load kind 1, then kind 2 with each mandatory key missing, complete with other limits, and from a re-written file of the same name. Differential oracle: params(limits=True) rows and the solve() table of a "
              "probe system, string-exact, against the constructor call. non-trivial = some optional key absent and some present / a rejection case.",
         assumptions=["TOML written with toml.dumps (homogeneous arrays only)", "LinReg excluded from the wrong-type menu as stated", "eff given as TOML integer not constrained"])
